@@ -333,6 +333,26 @@ fn family_special() -> Vec<Case> {
     out.push(Case { family: "name-spaces", defs: vec![d("again", &["l"], "dec cx jnz l")], data: String::new(), code: "start:\nmov cx, 3\nagain:\nagain(again)\n".into() });
     out.push(Case { family: "name-spaces", defs: vec![d("go", &["l"], "jmp l"), d("count", &["l"], "dec cx go(count) inc l")], data: String::new(), code: "start:\ncount(ax)\ncount:\nhlt\n".into() });
     out.push(Case { family: "name-spaces", defs: vec![d("f", &["p"], "call p")], data: String::new(), code: "def f {\ninc ax\n}\nstart:\nf(f)\n".into() });
+    // macro names that contain each other (suffix, prefix, infix): a macro using, directly or through a name
+    // argument, a macro whose name merely CONTAINS its own name is not recursive; using itself still is
+    {
+        let names = ["ap", "swap", "apx", "swapx", "s", "wa", "init", "reinit"];
+        for a in names {
+            for b2 in names {
+                if a == b2 {
+                    out.push(Case { family: "name-relations", defs: vec![d(a, &["p"], &format!("inc p {}(p)", a))], data: String::new(), code: format!("start:\n{}(ax)\n", a) });
+                    continue;
+                }
+                if !(a.contains(b2) || b2.contains(a)) {
+                    continue;
+                }
+                out.push(Case { family: "name-relations", defs: vec![d(b2, &["p"], "dec p"), d(a, &["p"], &format!("inc p {}(p) {} (p)", b2, b2))], data: String::new(), code: format!("start:\n{}(ax)\n{}(bx)\n", a, b2) });
+                out.push(Case { family: "name-relations", defs: vec![d(a, &["f", "p"], "inc p f(p)"), d(b2, &["p"], "dec p")], data: String::new(), code: format!("start:\n{}({}, cx)\n", a, b2) });
+                // three levels: a -> b -> a-like third name
+                out.push(Case { family: "name-relations", defs: vec![d("leaf", &["p"], "not p"), d(b2, &["p"], "dec p leaf(p)"), d(a, &["p"], &format!("{}(p) inc p", b2))], data: String::new(), code: format!("def f {{\n{}(si)\n}}\nstart:\ncall f\n", a) });
+            }
+        }
+    }
     // the same macro used twice with argument lists that read the same when run together (1,12 / 11,2):
     // every use is expanded from its own arguments
     {
